@@ -153,13 +153,31 @@ func seedPayloads() []*V {
 		add(ptr(x))
 	}
 	add(ptr(st(fld("F1", nil, imap("k1", deepT(50))))))
+	// Taggable through a pointer receiver (map type and struct type): behind a pointer field, behind a pointer in an interface-typed
+	// field, as the payload, as slice elements - honoured; by value and as a map value - an ordinary map / struct
+	ptTags := []PTag{{Ptr: "/k1", Class: "public"}, {Ptr: "/k2", Class: "sensitive"}, {Ptr: "/k3", Class: "secret", Op: "hmac-sha256"}}
+	ptm := func(c int) *V {
+		m := tmapv(ptTags, "k1", str(c), "k2", str(c+1), "k3", str(c+2), "k4", str(c+3))
+		m.K = "ptmap"
+		return m
+	}
+	pts := func(c int) *V {
+		return &V{K: "hand", Hand: "PTStruct", Tags: []PTag{{Ptr: "/M/k1", Class: "public"}, {Ptr: "/M/k2", Class: "sensitive"}},
+			Fields: []Field{fld("Sec", sec, str(c)), fld("Unt", nil, str(c+1)), fld("M", nil, imap("k1", str(c+2), "k2", str(c+3), "k3", str(c+4)))}}
+	}
+	for _, mk := range []func(int) *V{ptm, pts} {
+		add(ptr(mk(1)))
+		add(mk(1))
+		add(ptr(st(fld("F1", nil, ptr(mk(1))), fld("F2", nil, mk(10)), fld("F3", nil, &V{K: "iface", Elem: ptr(mk(20))}), fld("F4", nil, sliceOf(ptr(mk(30)))),
+			fld("F5", nil, imap("k1", ptr(mk(40)))), fld("F6", nil, sliceOf(mk(50))))))
+	}
 	// unexported fields (F10)
 	add(ptr(&V{K: "hand", Hand: "UnexpA", Fields: []Field{fld("hidden", nil, &V{K: "int", I: 7}), fld("hiddenS", nil, str(1)), fld("N", nil, &V{K: "int", I: 5}), fld("Sec", sec, str(2)), fld("Pub", pub, str(3))}}))
 	return out
 }
 
 func genSeeds(e *emitter) {
-	cfgs := []Cfg{{Wrap: "ok"}, {Ov: [3]string{"", "hmac", "encrypt"}, Wrap: "ok"}, {Ov: [3]string{"redact", "redact", "none"}, Wrap: "absent"}, {Wrap: "failing", EncFail: []int{0}}}
+	cfgs := []Cfg{{Wrap: "ok"}, {Ov: [3]string{"none", "none", "none"}, Wrap: "ok"}, {Ov: [3]string{"", "hmac", "encrypt"}, Wrap: "ok"}, {Ov: [3]string{"redact", "redact", "none"}, Wrap: "absent"}, {Wrap: "failing", EncFail: []int{0}}}
 	for _, cf := range cfgs {
 		for _, v := range seedPayloads() {
 			e.emit(Case{Gen: "seeds", Cfg: cf, PK: "val", V: v})
